@@ -153,6 +153,10 @@ def close_workers():
     _WORKERS.clear()
 
 
+import atexit  # noqa: E402
+atexit.register(close_workers)
+
+
 def run_impl(case):
     w = case.get("width")
     if w is None:
